@@ -173,7 +173,9 @@ class Scenario(Session):
         elif t == "pubrel":
             known = d["pid"] in self.inflight2
             self.inflight2.pop(d["pid"], None)
-            self.q(ref.e_ack("pubcomp", d["pid"], 0 if known else 0x92, self.ack_props() if known else [], short=self.rng.random() < 0.5))
+            rc = 0 if known else 0x92
+            if self.rng.random() < 0.04: rc = self.rng.choice([0x10, 0x80, 0x97]); self.count("pubcomp-with-inadmissible-code")   # not a PUBCOMP code: malformed for the client
+            self.q(ref.e_ack("pubcomp", d["pid"], rc, self.ack_props() if known and rc == 0 else [], short=self.rng.random() < 0.5))
         elif t == "subscribe":
             rcs = [self.rng.choice(SUBACK_RCS) for _ in d["topics"]]
             rcs = self.maybe_bad_verdicts(rcs, SUBACK_RCS)
@@ -236,7 +238,8 @@ class Scenario(Session):
             good = SUBACK_RCS if kind == "suback" else UNSUBACK_RCS
             data = ref.e_suback(kind, pid, [rng.choice(good) for _ in range(rng.choice([1, 1, 2, 3]))], self.ack_props())
         else:
-            rc = rng.choice(PUBACK_RCS) if kind != "pubcomp" else rng.choice([0, 0x92])
+            # now and then a reason code that exists in MQTT 5 but not for this packet type (must be treated as malformed, never surfaced)
+            rc = rng.choice(PUBACK_RCS + [0x92]) if kind != "pubcomp" else rng.choice([0, 0x92, 0x92, 0x10, 0x80])
             data = ref.e_ack(kind, pid, rc, self.ack_props(), short=rng.random() < 0.5)
         if self.silent_broker: return
         self.broker_out += data
